@@ -16,7 +16,8 @@
 //!
 //! Monitors (implementation only): `C14:stream-mismatch`, `C14:dgram-mismatch`, `C14:dgram-over-capacity`,
 //! `C14:accept-dup-or-missing`, `C14:eof-missing`, `C14:fd-leak`, `C14:zc-buffer-changed`, and the known
-//! findings `F140:poll-multi-empty-data`, `F141:recv-vectored-prefilled`.
+//! finding `F141:recv-vectored-prefilled` (F140, empty multishot datagrams on the fused polling path, is
+//! repaired in /repo: that symptom is a plain `C14:dgram-mismatch` now).
 
 use std::{
     cell::RefCell,
@@ -770,7 +771,7 @@ fn from_name(w: &DgramWorld, addr: Option<std::net::SocketAddr>) -> &'static str
 /// oracle for one received datagram: `data` is the prefix of the next sent datagram cut to `cap`,
 /// never longer than `cap`; source and truncation flag (when reported) are right
 #[allow(clippy::too_many_arguments)]
-fn check_dgram(ex: &RefCell<Exec>, line: &str, w: &mut DgramWorld, d: usize, drv: &str, kind: &str, data: &[u8], cap: usize, from: Option<&str>, trunc: Option<bool>) {
+fn check_dgram(ex: &RefCell<Exec>, line: &str, w: &mut DgramWorld, d: usize, _drv: &str, _kind: &str, data: &[u8], cap: usize, from: Option<&str>, trunc: Option<bool>) {
     let Some(sent) = w.queue[d].pop_front() else {
         ex.borrow_mut().fail("C14:dgram-mismatch", format!("{line}: received a datagram but none was in flight"));
         return;
@@ -780,11 +781,7 @@ fn check_dgram(ex: &RefCell<Exec>, line: &str, w: &mut DgramWorld, d: usize, drv
     }
     let k = sent.len().min(cap);
     if data != &sent[..k] {
-        let sig = if drv == "poll" && (kind == "frommulti" || kind == "msgmulti") && data.is_empty() {
-            "F140:poll-multi-empty-data"
-        } else {
-            "C14:dgram-mismatch"
-        };
+        let sig = "C14:dgram-mismatch";
         ex.borrow_mut().fail(sig, format!("{line}: received {} for datagram {} (room {cap})", hex(data), hex(&sent)));
     }
     if let Some(f) = from {
